@@ -3,6 +3,7 @@ package svc
 import (
 	"context"
 	"fmt"
+	"github.com/spq/pkappa2/internal/tools/bitmask"
 	"os"
 	"path/filepath"
 	"sort"
@@ -157,6 +158,10 @@ func CheckC06(w *World, s *Snapshot) []V {
 				continue
 			}
 			if got := has(t.Matches, uint(id)); got != m[id] {
+				if conversionWindow(s, t.Definition, id) {
+					out = append(out, V{"C06", "c06.stale-decided-bit-until-conversion-job-completes", fmt.Sprintf("tag %s (%s): stream %d is reported as decided with membership %v, evaluating the definition on its current data (converter output a still running conversion job has already cached) gives %v", t.Name, t.Definition, id, got, m[id])})
+					continue
+				}
 				out = append(out, V{"C06", "c06.stale-decided-bit", fmt.Sprintf("tag %s (%s): stream %d is reported as decided with membership %v, evaluating the definition on its current data gives %v", t.Name, t.Definition, id, got, m[id])})
 			}
 		}
@@ -197,10 +202,53 @@ func CheckC06(w *World, s *Snapshot) []V {
 		}
 		sort.Strings(want)
 		if strings.Join(want, ",") != strings.Join(shown[id], ",") {
+			// do all differing tags fall into the window of a conversion job that has cached output
+			// and not delivered its completion?
+			in := map[string]int{}
+			for _, n := range want {
+				in[n]++
+			}
+			for _, n := range shown[id] {
+				in[n]--
+			}
+			allWindow := true
+			for _, t := range s.St.Tags {
+				if in[t.Name] != 0 && !conversionWindow(s, t.Definition, id) {
+					allWindow = false
+				}
+			}
+			if allWindow {
+				out = append(out, V{"C06", "c06.view-shows-wrong-tags-until-conversion-job-completes", fmt.Sprintf("a freshly opened view shows stream %d with tags [%s], evaluating the definitions on its current data (converter output a still running conversion job has already cached) gives [%s]", id, strings.Join(shown[id], ","), strings.Join(want, ","))})
+				continue
+			}
 			out = append(out, V{"C06", "c06.view-shows-wrong-tags", fmt.Sprintf("a freshly opened view shows stream %d with tags [%s], evaluating the definitions on its current data gives [%s]", id, strings.Join(shown[id], ","), strings.Join(want, ","))})
 		}
 	}
 	return out
+}
+
+// conversionWindow: the tag filters on data and a conversion job that has produced (and cached)
+// output for this stream is parked before the delivery of its completion, which is what re-opens
+// data tags for the converted streams.
+func conversionWindow(s *Snapshot, definition string, id uint64) bool {
+	if !strings.Contains(definition, "data") {
+		return false
+	}
+	for _, j := range s.Parked {
+		if j.Kind != "convert" || j.Gate != "done" {
+			continue
+		}
+		for _, a := range j.Args {
+			if sets, ok := a.([]*bitmask.LongBitmask); ok {
+				for _, b := range sets {
+					if b.IsSet(uint(id)) {
+						return true
+					}
+				}
+			}
+		}
+	}
+	return false
 }
 
 // ---- C10: views are complete and stable snapshots ----
@@ -474,6 +522,10 @@ func CheckC16(w *World, s *Snapshot, quiescent bool) []V {
 						continue
 					}
 					if _, cached := recs[uint64(id)].Reps[c]; !cached {
+						if w.FutureMarks[t.Name][uint64(id)] {
+							out = append(out, V{"C16", "c16.missing-output-for-stream-marked-before-it-existed", fmt.Sprintf("at quiescence stream %d matches tag %s with converter %s attached but has no converter output; the mark was created for id %d before a stream with that id existed", id, t.Name, c, id)})
+							continue
+						}
 						out = append(out, V{"C16", "c16.missing-output", fmt.Sprintf("at quiescence stream %d matches tag %s with converter %s attached but has no converter output", id, t.Name, c)})
 					}
 				}
@@ -484,3 +536,16 @@ func CheckC16(w *World, s *Snapshot, quiescent bool) []V {
 }
 
 var _ = mc.Fatal
+
+// CheckC20: a job that was parked at its begin point executed nothing in between; if what it was
+// handed (bitmasks shared by slice with the service state) changed meanwhile, another goroutine
+// wrote to memory this job reads without synchronisation once it runs.
+func CheckC20(w *World) []V {
+	w.mu.Lock()
+	defer w.mu.Unlock()
+	var out []V
+	for _, c := range w.InputChanges {
+		out = append(out, V{"C20", "c20.job-input-modified-in-flight", "memory handed to a background job was written by another goroutine before the job read it: " + c})
+	}
+	return out
+}
